@@ -157,20 +157,27 @@ def sideFlux (tiny G rho : α) (uface : V3 α) (v P rhoinv SKmv Sstar : α) (nor
     ((F.1 + C.1, F.2.1.add C.2.1, F.2.2 + C.2.2), 1)
   else (F, 0)
 
+/-- bookkeeping: 0 when `S_L ≤ S* ≤ S_R`, 800 otherwise -/
+def ordTag (SL Sstar SR : α) : Nat := if SL ≤ Sstar ∧ Sstar ≤ SR then 0 else 800
+
 /-- lines 413-497: the non-vacuum path, from the face-frame quantities to the de-boosted flux -/
 def mainFlux (tiny G rhoL PL rhoLinv PLinv aL rhoR PR rhoRinv PRinv aR vdiff abar : α)
     (f : FaceFrame α) (normal vface : V3 α) : Flux α :=
   let w := waves tiny G rhoL f.vL PL PLinv aL rhoR f.vR PR PRinv aR vdiff abar
+  -- bookkeeping only: +800 when the wave-speed estimates are not ordered `S_L ≤ S* ≤ S_R`
+  -- (the premise of `hllc_textbook`, measured on every run)
+  let ord : Nat := ordTag (w.SLmvL + f.vL) w.Sstar (w.SRmvR + f.vR)
   if 0.0 ≤ w.Sstar then
     let r := sideFlux tiny G rhoL f.uLface f.vL PL rhoLinv w.SLmvL w.Sstar normal true
-    deboost r.1.1 r.1.2.1 r.1.2.2 vface (41 + r.2 + w.tag)
+    deboost r.1.1 r.1.2.1 r.1.2.2 vface (41 + r.2 + w.tag + ord)
   else
     let r := sideFlux tiny G rhoR f.uRface f.vR PR rhoRinv w.SRmvR w.Sstar normal false
-    deboost r.1.1 r.1.2.1 r.1.2.2 vface (43 + r.2 + w.tag)
+    deboost r.1.1 r.1.2.1 r.1.2.2 vface (43 + r.2 + w.tag + ord)
 
 /-- `HLLCRiemannSolver::solve_for_flux` (355-497).  Branch ids: 0 both states vacuum; 11-13 /
 21-23 / 31-35 vacuum samplers (see `RiemannVacuum`); 41 `F_L`, 42 `F*_L`, 43 `F_R`, 44 `F*_R`
-(+100 left shock estimate, +200 right shock estimate, +400 pressure estimate clamped to 0). -/
+(+100 left shock estimate, +200 right shock estimate, +400 pressure estimate clamped to 0,
++800 wave-speed estimates not ordered). -/
 def solveForFlux (tiny ovf g rhoL : α) (uL : V3 α) (PL rhoR : α) (uR : V3 α) (PR : α)
     (normal vface : V3 α) : Flux α :=
   let G := effGamma g
